@@ -3,6 +3,8 @@
 set -e
 cd "$(dirname "$0")"
 export CARGO_NET_OFFLINE=true
+# the monitors must fire on deliberately wrong hand-written subjects and stay silent on a correct one
+(cd monitor && CARGO_TARGET_DIR=../work/selftest-target cargo test --offline -q 2>&1 | tail -3)
 python3 - <<'PY'
 import sys
 sys.path.insert(0, '.')
